@@ -958,7 +958,14 @@ def run(ctx):
     id_part(ctx, impl, orc, proved, known)
     ws_stream(ctx, cases, impl, 3000 if not ctx.thorough else 30000)
     # the namespace-axis stream: its random.Random is seeded from ctx.rng after every other stream, too
-    ns_part(ctx, impl, model, corr, orc, proved, known)
+    # its proof leg (coq/Properties_C02n.v: XpDefs.namespaces = the declarative in-scope environment); a broken
+    # proof widens the stream
+    try:
+        nsproof = importlib.import_module("props.C02_nsproof")
+    except ImportError:
+        nsproof = None
+    ns_proved = nsproof.run_part(ctx) if nsproof is not None else True
+    ns_part(ctx, impl, model, corr, orc, proved and ns_proved, known)
     new = [o for o in orc if not (o["known"] and o["known"] in known)]
     for o in orc:
         if o["known"] and o["known"] in known:
